@@ -1,6 +1,22 @@
 import Bcder.Props.C11
 import Bcder.Props.C11b
+import Bcder.Props.C11c
 #print axioms Bcder.Props.C11.capture_exact
+#print axioms Bcder.Props.C11c.framable_bind
+#print axioms Bcder.Props.C11c.capture_run1
+#print axioms Bcder.Props.C11c.framable_capture
+#print axioms Bcder.Props.C11c.good_pnv
+#print axioms Bcder.Props.C11c.good_pnvIf
+#print axioms Bcder.Props.C11c.good_mandatory
+#print axioms Bcder.Props.C11c.good_seq
+#print axioms Bcder.Props.C11c.good_skipOpt
+#print axioms Bcder.Props.C11c.good_skipOne
+#print axioms Bcder.Props.C11c.good_skipAll
+#print axioms Bcder.Props.C11c.good_capture
+#print axioms Bcder.Props.C11c.good_captureOne
+#print axioms Bcder.Props.C11c.good_captureAll
+#print axioms Bcder.Props.C11c.capture_no_marker
+#print axioms Bcder.Props.C11c.d12b_example
 #print axioms Bcder.Props.C11.capture_exact_tracks
 #print axioms Bcder.Props.C11.tracks_bind
 #print axioms Bcder.Props.C11.tracks_capture
